@@ -129,6 +129,11 @@ class FnInfo:
     pass
 
 
+class NeedMutSelf(Exception):
+    """a `&self` method turned out to write `self` (through an alias the prescan does not follow): translate it again
+    as a state-updating method"""
+
+
 class Unit:
     """one Rust source file -> one Lean namespace"""
 
@@ -378,7 +383,10 @@ class Unit:
                 f = src.function(impl, name)
             else:
                 f = self.fi.function(impl, name)
-            info = FnTranslator(self, f).run()
+            try:
+                info = FnTranslator(self, f).run()
+            except NeedMutSelf:
+                info = FnTranslator(self, f, force_mut=True).run()
             if src is not None: info.rel = src.rel
         except RsError as e:
             self.failed[key] = "%s%s: %s" % ((impl + "::") if impl else "", name, e)
@@ -480,8 +488,9 @@ class Unit:
 
 # ---------------------------------------------------------------------------------------------- function
 class FnTranslator:
-    def __init__(self, unit, f):
+    def __init__(self, unit, f, force_mut=False):
         self.u, self.f = unit, f
+        self.force_mut = force_mut
         self.impl = f["impl"]
         self.n = 0
         self.exts = []       # external function parameters: (lean name, lean type string)
@@ -613,6 +622,8 @@ class FnTranslator:
     def prescan(self, blk):
         """a `&self` method that mutates through a lock, or calls one that does, returns the new self as well"""
         if self.selfk != "ref" or getattr(self, "byval_self", False): return
+        if self.force_mut:
+            self.selfk = "mut"; return
         def walk(e, fn):
             if isinstance(e, tuple):
                 if e and e[0] == "macro": return
@@ -1484,6 +1495,11 @@ class FnTranslator:
                 return self.place_set(env[v][1], new, env, pre)
             if v in getattr(self, "guard_vars", ()):
                 raise RsError("write through the MutexGuard returned by a function (%s) is outside the subset" % v)
+            if v == "self" and self.selfk == "ref" and not getattr(self, "byval_self", False) and not self.trait_self \
+                    and env.get("self", ("",))[0] == "struct":
+                # a `&self` method writes `self` (interior mutability through an alias the prescan did not follow):
+                # the updated self must be returned, never dropped
+                raise NeedMutSelf()
             pre.append(("let", lid(v), new))
             return env
         if k == "field":
@@ -2289,13 +2305,14 @@ class FnTranslator:
 
     def call_any(self, e, env, pre, want=None, want_result=False):
         """returns (term, type, 'val'|'comp')"""
-        self.want_result = want_result
-        try:
-            if e[0] == "call":
-                return self.call(e, env, pre, want)
-            return self.mcall(e, env, pre, want)
-        finally:
-            self.want_result = False
+        # `wr_of[id(e)]`: is the Result of exactly this call consumed by `?` / the tail position?  (per call expression:
+        # the arguments are evaluated by nested call_any's)
+        if not hasattr(self, "wr_of"): self.wr_of = {}
+        self.wr_of[id(e)] = want_result
+        self.cur_call = e
+        if e[0] == "call":
+            return self.call(e, env, pre, want)
+        return self.mcall(e, env, pre, want)
 
     def call_translated(self, info, args_terms, env, pre, self_term=None):
         if getattr(info, "returns_guard", False): self.last_guard = True
@@ -2316,7 +2333,7 @@ class FnTranslator:
             return v, info.out_ty, "val"
         return "(" + call + ")", info.out_ty, "val"
 
-    def invoke(self, info, recv, args, env, pre):
+    def invoke(self, info, recv, args, env, pre, wr=False):
         """call of a translated function that updates state (`&mut self` on an arbitrary place `recv`, `&mut` parameters):
         the updated values are stored back into the argument places"""
         a = self.args_for(info, args, env, pre)
@@ -2331,7 +2348,7 @@ class FnTranslator:
         parts += a
         call = " ".join(parts)
         if info.is_result:
-            if not getattr(self, "want_result", False) or not self.is_result:
+            if not wr or not self.is_result:
                 raise RsError("Result of the state-updating call %s used other than by `?` or in tail position" % info.name)
         outs = []   # (fresh name, place AST)
         ps = [p for p in info.params if p[0] != "self"]
@@ -2387,6 +2404,7 @@ class FnTranslator:
 
     def call(self, e, env, pre, want):
         fn, args = e[1], e[2]
+        wr = getattr(self, "wr_of", {}).get(id(e), False)
         if fn[0] != "path": raise RsError("call of a non-path")
         segs = fn[1]
         name = segs[-1]
@@ -2472,7 +2490,7 @@ class FnTranslator:
             if info.params and info.params[0][0] == "self":
                 raise RsError("static call of a method")
             if info.mut_params:
-                return self.invoke(info, None, args, env, pre)
+                return self.invoke(info, None, args, env, pre, wr)
             a = self.args_for(info, args, env, pre)
             return self.call_translated(info, a, env, pre)
         raise RsError("call of unknown function %s (not in this file, not declared external)" % "::".join(segs))
@@ -2541,6 +2559,7 @@ class FnTranslator:
 
     def mcall(self, e, env, pre, want):
         _, recv, m, turbo, args, line = e
+        wr = getattr(self, "wr_of", {}).get(id(e), False)
         if recv == ("path", ["self"]) and ("self." + m) in self.u.externals:
             return self.call_external("self." + m, args, env, pre)
         # methods of the translated impl on self
@@ -2549,7 +2568,7 @@ class FnTranslator:
             info = self.u.get_fn(self.impl, m)
             if info.mut_params:
                 if info.mut_self and self.selfk != "mut": raise RsError("&mut self method called from a &self method")
-                return self.invoke(info, recv, args, env, pre)
+                return self.invoke(info, recv, args, env, pre, wr)
             a = self.args_for(info, args, env, pre)
             if info.mut_self:
                 if self.selfk != "mut": raise RsError("&mut self method called from a &self method")
@@ -2559,7 +2578,7 @@ class FnTranslator:
                     for x in info.exts: self.add_ext(*x, ops=getattr(info, 'ext_opaques', ()))
                     self.callees.append(info.lean_name)
                     if not self.is_result: raise RsError("Result method called outside a Result function")
-                    if not getattr(self, "want_result", False):
+                    if not wr:
                         raise RsError("Result of the state-updating call %s used other than by `?` or in tail position" % m)
                     if info.val_ty == UNIT:
                         pre.append(("bind", "self", MCall(call))); return "()", UNIT, "tried"
@@ -2615,7 +2634,7 @@ class FnTranslator:
             if rty0 is not None and rty0[0] in ("struct", "enum") and (rty0[1], m) in self.u.fi.fns:
                 info = self.u.get_fn(rty0[1], m)
                 if info.mut_self or info.mut_params:
-                    return self.invoke(info, recv, args, env, pre)
+                    return self.invoke(info, recv, args, env, pre, wr)
                 a = self.args_for(info, args, env, pre)
                 rterm, _ = self.expr(recv, env, pre, None)
                 return self.call_translated(info, a, env, pre, rterm if " " not in rterm or rterm.startswith("(") else "(" + rterm + ")")
